@@ -20,10 +20,12 @@ INFO = {
                                             'from 6 concrete strings (not solver variables)'},
                'thorough': {'models': '+ 100 generated classes'}},
     'outside': ['more than two simultaneously symbolic leaves', 'text strings as solver variables',
-                'byte strings of 65536+ bytes (C01 covers payload lengths)'],
+                'more than one long byte string per model instance (enc_elastic: one non-text byte-string leaf of '
+                'solver-chosen length 0..70000, thorough 0..2^20, opaque content)', 'long TEXT values beyond the menu'],
     'assumptions': ['model classes are concrete programs (enumerated, not solver-quantified)'],
 }
-MANDATORY = {'enc': ['exact-minimal-encoding', 'roundtrip'], 'dec': ['decode-differential']}
+MANDATORY = {'enc': ['exact-minimal-encoding', 'roundtrip'], 'dec': ['decode-differential'],
+             'enc_elastic': ['exact-minimal-encoding', 'roundtrip', 'end']}
 
 
 def _cls(case):
@@ -141,7 +143,140 @@ def h_dec(eng, case):
     eng.reach('both-accept')
 
 
-HARNESSES = {'enc': h_enc, 'dec': h_dec}
+# ---------------------------------------------------------------------------------------------
+# one byte-string leaf of solver-chosen LENGTH (elastic buffer, symex/elastic.py)
+# ---------------------------------------------------------------------------------------------
+def _num_list(v):
+    if v <= 0xFC:
+        return [v]
+    if v <= 0xFFFF:
+        return [0xFD] + list(v.to_bytes(2, 'big'))
+    if v <= 0xFFFFFFFF:
+        return [0xFE] + list(v.to_bytes(4, 'big'))
+    return [0xFF] + list(v.to_bytes(8, 'big'))
+
+
+def _surrogate(eng, wire, start, end, tpath, payload, label):
+    """strict reading of the element sequence wire[start:end]; the first child of type tpath[0] leads to the payload
+    (directly, or through nested models).  Returns the same sequence with the payload replaced by an empty value and
+    every enclosing length rewritten by the harness - or None"""
+    off = start
+    body = []
+    seen = 0
+    guard = 0
+    while off < end:
+        guard += 1
+        if guard > 40:
+            eng.fail(label, 'too-many-elements')
+            return None
+        try:
+            et, s1, f1 = ref.rd_num(wire, off, end)
+            el, s2, f2 = ref.rd_num(wire, off + s1, end)
+        except (ref.RefReject, IndexError):
+            eng.fail(label, 'ref-reject:element-header')
+            return None
+        vs = off + s1 + s2
+        ve = vs + el
+        eng.check(ve <= end, label, sig='element overruns its parent')
+        eng.check(And(f1, f2), label, sig='number not in shortest form')
+        et = as_int(et)
+        if et == tpath[0] and not seen:
+            seen = 1
+            if len(tpath) == 1:
+                eng.check(wire[vs:ve] == payload, label, sig='payload region is not the payload')
+                body += _num_list(et) + [0]
+            else:
+                inner = _surrogate(eng, wire, vs, ve, tpath[1:], payload, label)
+                if inner is None:
+                    return None
+                body += _num_list(et) + _num_list(len(inner)) + inner
+        else:
+            try:
+                body += blist(wire[off:ve])
+            except Exception:
+                eng.fail(label, 'element-overlaps-payload')
+                return None
+        off = ve
+    eng.check(off == end, label, sig='elements do not tile the value')
+    eng.check(seen == 1, label, sig='payload element missing')
+    return body
+
+
+def h_enc_elastic(eng, case):
+    from symex.api import mview
+    from symex.core import s_len
+    cls = _cls(case)
+    schema = mg.schema_of(cls)
+    lv = mg.leaves(schema)
+    target = case['leaf']
+    # every other leaf has a fixed value, except ONE integer / boolean / short byte-string neighbour (chosen by the
+    # case's salt: the leaf before the target, the one after it, the first one) whose value is symbolic as well
+    names = [q for q, k, a in lv]
+    ti = names.index(target)
+    cand = [i for i in ((ti - 1, ti + 1, 0)[case.get('salt', 0) % 3],) if 0 <= i < len(lv) and i != ti
+            and lv[i][1] in ('uint', 'bool', 'bytes')]
+    plan = {q: 'fixed' for q in names}
+    for i in cand:
+        plan[names[i]] = 'sym'
+    plan[target] = 'fixed'
+    vals = mg.make_values(eng, schema, plan)
+    payload, n = eng.elastic('blob', 0, case['max'])
+    # put the payload at the target leaf; remember the chain of type numbers that leads to it
+    parts = target.split('.')
+    tpath = []
+    cur_s, cur_v = schema, vals
+    empty = None
+    for i, nm in enumerate(parts):
+        ent = [e for e in cur_s if e[0] == nm][0]
+        tpath.append(ent[1])
+        if i == len(parts) - 1:
+            cur_v[nm] = [payload] + list(cur_v[nm][1:]) if ent[2] == 'rep' else payload
+        else:
+            cur_s, cur_v = ent[3][0], cur_v[nm]
+    try:
+        m = mg.build(cls, schema, vals)
+        size = m.encoded_length()
+        wire = m.encode()
+    except Exception as e:
+        eng.fail('encode-raises', exc_sig(e), repr(e)[:200])
+        return
+    wv = mview(wire)
+    sur = _surrogate(eng, wv, 0, s_len(wv), tpath, payload, 'exact-minimal-encoding')
+    if sur is None:
+        return
+    # the reference encoding of the same values with an empty byte string at the target
+    cur_v = vals
+    for i, nm in enumerate(parts):
+        if i == len(parts) - 1:
+            cur_v[nm] = [b''] + list(cur_v[nm][1:]) if isinstance(cur_v[nm], list) else b''
+        else:
+            cur_v = cur_v[nm]
+    expected = mg.w_model(schema, vals)
+    eng.check(beq(sur, expected), 'exact-minimal-encoding')
+    eng.check(s_len(wv) == size, 'announced-size')
+    try:
+        back = cls.parse(wire)
+    except Exception as e:
+        eng.fail('decode-raises', exc_sig(e), repr(e)[:200])
+        return
+    obj = back
+    for nm in parts[:-1]:
+        obj = getattr(obj, nm)
+    got = getattr(obj, parts[-1])
+    if isinstance(got, list):
+        eng.check(len(got) >= 1 and (got[0] == payload), 'roundtrip', sig='payload')
+        if got:
+            got[0] = b''
+    else:
+        eng.check(got is not None and (got == payload), 'roundtrip', sig='payload')
+        setattr(obj, parts[-1], b'')
+    eng.check(mg.same_model(schema, back, vals), 'roundtrip')
+    eng.observe('payload_octets', n)
+    eng.observe('wire_octets', s_len(wv))
+    eng.reach('end')
+
+
+HARNESSES = {'enc': h_enc, 'dec': h_dec, 'enc_elastic': h_enc_elastic}
 
 
 def _models(tier, seed):
@@ -160,6 +295,20 @@ def _models(tier, seed):
 
 def cases(tier, seed):
     cs = []
+    # every non-text byte-string leaf (also inside nested models and as first element of a repeated field) with a value
+    # of solver-chosen length
+    emax = 70000 if tier == 'quick' else 2 ** 20
+    for src, key, cls in _models(tier, seed):
+        if src == 'gen' and (tier == 'quick' or key >= 24):
+            continue
+        schema = mg.schema_of(cls)
+        for q, k, a in mg.leaves(schema):
+            if k == 'bytes' or (k == 'rep' and a[0] == 'bytes'):
+                base = {'src': src, 'model': key, 'leaf': q, 'max': emax}
+                if src == 'gen':
+                    base['seed'] = seed
+                for salt in ((0,) if tier == 'quick' else (0, 1, 2)):
+                    cs.append(('enc_elastic', dict(base, salt=salt), {'weight': 20}))
     for src, key, cls in _models(tier, seed):
         schema = mg.schema_of(cls)
         base = {'src': src, 'model': key}
